@@ -20,7 +20,7 @@
 //!  "blk"   BlteBlockCache + ContentAddressedCache (+ CdnContentCache) over MemoryCache<BlteBlockKey>
 //!            putb{c,i,d,n} getb{c,i,d} meta{c} evold{age:"zero"|"huge"} putv{c,as} getv{c} getf{c} tick probe
 //!  "arc"   ArchiveCache (+ CdnArchiveCache) over MemoryCache<ArchiveRangeKey>
-//!            putr{a,o,l,n} getr{a,o,l} isc{a,o,l} ovl{a,o,l} getf{a,o,l} meta{a} tick probe   (o = number | "max")
+//!            putr{a,o,l,n} getr{a,o,l} isc{a,o,l} ovl{a,o,l} getf{a,o,l} meta{a} tick probe   (o = number, -1 = u64::MAX)
 //!  "res"   NgdpResolutionCache (+ CdnNgdpResolutionCache)
 //!            croot{r,as} res{r,p} cenc{e,as} rese{e,c} chain{r,e,p} fb{r,p}
 //!  "inv"   pure decisions: sinv{strat,ent,size,bytes} gttl{strat} wval{en,maxe}
@@ -392,11 +392,13 @@ fn run_keys<K: TK>(prog: &Value, cfg: &Value, out: &Emit) {
             },
             "probe" => {
                 let mut vals = vec![];
+                let mut names = vec![];
                 for f in &keys {
                     let k = K::mk(f.as_array().unwrap());
+                    names.push(k.as_cache_key().to_string());
                     vals.push(get_res(rt.block_on(cache.as_ref().unwrap().get(&k))));
                 }
-                json!({"vals": vals})
+                json!({"vals": vals, "names": names})
             }
             other => panic!("driver: unknown keys op {other}"),
         });
@@ -554,11 +556,12 @@ fn run_blk(prog: &Value, cfg: &Value, out: &Emit) {
 }
 
 // --------------------------------------------------------------------------- kind "arc"
+/// offsets: -1 stands for u64::MAX (TLC integers are 32-bit)
 fn off(v: &Value) -> u64 {
-    if v == "max" { u64::MAX } else { v.as_u64().unwrap_or_else(|| panic!("driver: offset {v}")) }
+    if v.as_i64() == Some(-1) { u64::MAX } else { v.as_u64().unwrap_or_else(|| panic!("driver: offset {v}")) }
 }
 fn off_json(o: u64) -> Value {
-    if o == u64::MAX { json!("max") } else { small(o) }
+    if o == u64::MAX { json!(-1) } else { small(o) }
 }
 fn run_arc(prog: &Value, cfg: &Value, out: &Emit) {
     let rt = rt();
